@@ -103,6 +103,26 @@ def run(res, replay=None):
         data = geo.geo_data(tier, seed, inputs=[rp["input"]], name="geo_replay")
     else:
         data = geo.geo_data(tier, seed)
+        # strong density contrast: a cell with thousands of neighbour candidates nearer than one of its true neighbours (a dense block of
+        # generators next to two isolated ones); only the two isolated cells are constructed
+        rng = C.Rng(seed * 3571 + 23)
+        big = []
+        for per in ([True] if tier == "quick" else [True, False]):
+            m = 17 if tier == "quick" else 19
+            a_pos = [0.5, 0.5, 0.5]
+            b_pos = [0.5 + 0.25, 0.5 + 0.01 * rng.unit(), 0.5 + 0.01 * rng.unit()]
+            sp = 0.002
+            c0 = [0.5 - 0.2, 0.5, 0.5]
+            gens = [a_pos, b_pos]
+            for i in range(m):
+                for j in range(m):
+                    for l in range(m):
+                        gens.append([c0[0] + sp * (i - m / 2 + 0.2 * (rng.unit() - 0.5)), c0[1] + sp * (j - m / 2 + 0.2 * (rng.unit() - 0.5)),
+                                     c0[2] + sp * (l - m / 2 + 0.2 * (rng.unit() - 0.5))])
+            big.append({"family": "contrast", "dim": 3, "periodic": per, "anchor": [0.0, 0.0, 0.0], "width": [1.0, 1.0, 1.0],
+                        "gens": gens, "mask": [True, True] + [False] * (len(gens) - 2)})
+        extra = geo.geo_data(tier, seed, inputs=big, name="c01big")
+        data = {"recs": data["recs"] + extra["recs"], "n_jobs": data["n_jobs"] + extra["n_jobs"]}
     n_exact = 0
     for k_in, rec in enumerate(data["recs"]):
         inp = rec["inp"]
@@ -112,6 +132,9 @@ def run(res, replay=None):
             res.violation("panic:" + geo.panic_class(rec), f"construction panicked: {(o or {}).get('panic')} on family {inp['family']} dim {inp['dim']} periodic {inp['periodic']}",
                           {"input": T.inp_json(inp)})
             continue
+        if rec.get("model_missing"):
+            res.violation("corr:model-output-missing", f"the exact model produced no result for cells {rec['model_missing'][:5]} of a {inp['family']} input "
+                          "(driver / parsing problem): these cells were not compared", {"input": T.inp_json(inp)}, no_input=True)
         n_exact += o.get("trace", {}).get("exact", 0)
         tol = T.tolerances(inp)
         for gi in rec["model"]:
